@@ -463,6 +463,11 @@ func (w *Writer) ReadFrom(src io.Reader) (n int64, err error) {
 		err = nil
 		w.dirty = true
 	}
+	if n > 0 {
+		// Bytes of the message were accepted (and maybe already sent as
+		// fragments) before src failed: Flush() has to finish that message.
+		w.dirty = true
+	}
 	return n, err
 }
 
